@@ -5,6 +5,7 @@
 //! serialization unchanged" (felt252, contract class, text, JSON).
 //!
 //! usage: h18 <out_dir> <tier>      (VERIF_SEED from the environment)
+#![recursion_limit = "256"]
 mod pr;
 mod progs;
 mod vecs;
@@ -852,6 +853,8 @@ fn main() {
     let mut stats = progs::Stats::default();
     // boundary construction -> (accepted, refused) by sierra_to_felt252s
     let mut boundary_outcomes: BTreeMap<String, (u64, u64)> = BTreeMap::new();
+    // boundary programs the serializer accepts but that do not come back unchanged
+    let mut boundary_lossy: Vec<Value> = vec![];
     let mut distinct_ser: HashSet<String> = HashSet::new();
     let mut ser_cases = 0;
     let mut ser_accepted = 0;
@@ -878,6 +881,14 @@ fn main() {
             w += f.len();
             if let Some(l) = &si.label {
                 boundary_outcomes.entry(l.clone()).or_insert((0, 0)).0 += 1;
+                // does the accepted boundary program come back?  (not an oracle failure by itself:
+                // the driver compares the lossy constructions with the documented ones)
+                let back = i_de(f).ok().flatten();
+                let same = matches!(&back, Some((sv2, cv2, p2)) if *sv2 == sv && *cv2 == cv && p2 == &si.p);
+                if !same {
+                    boundary_lossy.push(json!({"label": l, "program": format!("{:?}", si.p),
+                        "came_back": back.map(|(_, _, p2)| format!("{:?}", p2))}));
+                }
             }
             let fv = unwrap_f(f);
             if let Ok(Some(raw)) = i_decompress(&f[6..]) {
@@ -1172,6 +1183,7 @@ fn main() {
         "gen_programs_text_domain": gen_progs.iter().filter(|(_, t)| *t).count(),
         "boundary_programs": boundary.len(),
         "boundary_outcomes_accepted_refused": boundary_outcomes,
+        "boundary_lossy": boundary_lossy,
         "compress_cases": compress_cases,
         "compress_big_cases": comp_big.len(),
         "decompress_cases": decompress_cases,
